@@ -1,4 +1,5 @@
-(* CorrDefs/CorrC14.v — one generated C14 case inside Coq: a class table as introspected from the real classes, the
+(* CorrDefs/CorrC14.v — one generated C14 case inside Coq = the loads made at one or two points of a process history (part
+   of the hierarchy defined, load; the rest defined, load again), each point judged on its own: a class table as introspected from the real classes, the
    implementation's actual all_subclasses enumeration orders, one source (an instance or a hand-written dict), the
    serialized forms and what from_dict returned for each drop_extra_fields; and the two checks run on it. *)
 From SPV Require Export Base.Corr Model.Subclass Model.SubclassSpec Gen.FactsSubclass.
@@ -11,7 +12,7 @@ Record probe := mkprobe {
   p_outs : list (option bool * res value)         (* drop_extra_fields -> how from_dict(via, p_ser, ..) ended *)
 }.
 
-Record case := mkcase {
+Record stage := mkstage {
   c_mod : string;                                 (* module the classes were created in *)
   c_hier : hier;                                  (* registration order; names/bases/init fields read off the classes *)
   c_dis : list (string * bool);                   (* observed getattr(cls, "decode_into_subclasses", False) *)
@@ -21,7 +22,7 @@ Record case := mkcase {
   c_probes : list probe
 }.
 
-Definition enum_of (c : case) (n : string) : list string :=
+Definition enum_of (c : stage) (n : string) : list string :=
   match assoc n c.(c_enum) with Some l => l | None => [] end.
 
 Definition perm_names (a b : list string) : bool :=
@@ -33,7 +34,7 @@ Fixpoint bases_earlier (seen : list string) (h : hier) : bool :=
   | c :: r => forallb (fun b => str_in b seen) (c_bases c) && bases_earlier (c_name c :: seen) r
   end.
 
-Definition in_scope (c : case) : bool :=
+Definition stage_in_scope (c : stage) : bool :=
   wf_hier_gen c.(c_hier) && bases_earlier [] c.(c_hier)
   && match find_class c.(c_hier) c.(c_via) with Some _ => true | None => false end
   && match c.(c_src) with
@@ -41,17 +42,17 @@ Definition in_scope (c : case) : bool :=
      | SrcRaw kvs => str_nodupb (sf_keys kvs)
      end.
 
-Definition model_result (c : case) (dropo : option bool) (s : ser) : res value :=
+Definition model_result (c : stage) (dropo : option bool) (s : ser) : res value :=
   from_ser_gen c.(c_hier) c.(c_mod) (enum_of c) c.(c_via) dropo s.
 
-Definition probe_model_ok (c : case) (p : probe) : bool :=
+Definition probe_model_ok (c : stage) (p : probe) : bool :=
   match c.(c_src) with
   | SrcInst v => ser_eqb (to_ser_gen c.(c_mod) p.(p_save) v) p.(p_ser)
   | SrcRaw kvs => ser_eqb (SMap kvs) p.(p_ser)
   end
   && forallb (fun o => res_eqb value_eqb (model_result c (fst o) p.(p_ser)) (snd o)) p.(p_outs).
 
-Definition model_ok (c : case) : bool :=
+Definition stage_model_ok (c : stage) : bool :=
   (* __init_subclass__ : the attribute every class ended up with *)
   strs_eqb (map fst c.(c_dis)) (map c_name c.(c_hier))
   && forallb (fun nb => Bool.eqb (dis_of_gen c.(c_hier) (fst nb)) (snd nb)) c.(c_dis)
@@ -59,7 +60,7 @@ Definition model_ok (c : case) : bool :=
   && forallb (fun cl => perm_names (enum_of c (c_name cl)) (map c_name (descendants c.(c_hier) (c_name cl)))) c.(c_hier)
   && forallb (probe_model_ok c) c.(c_probes).
 
-Definition probe_spec_ok (c : case) (p : probe) : bool :=
+Definition probe_spec_ok (c : stage) (p : probe) : bool :=
   forallb (fun o =>
     let effdrop := spec_effdrop c.(c_hier) c.(c_via) (fst o) in
     match c.(c_src) with
@@ -72,4 +73,11 @@ Definition probe_spec_ok (c : case) (p : probe) : bool :=
         end
     end) p.(p_outs).
 
-Definition spec_ok (c : case) : bool := forallb (probe_spec_ok c) c.(c_probes).
+Definition stage_spec_ok (c : stage) : bool := forallb (probe_spec_ok c) c.(c_probes).
+
+(* a case: the class tables, enumerations and loads observed at successive points of ONE process (same module; classes
+   defined later are absent from the earlier tables) *)
+Definition case := list stage.
+Definition in_scope (c : case) : bool := forallb stage_in_scope c.
+Definition model_ok (c : case) : bool := forallb stage_model_ok c.
+Definition spec_ok (c : case) : bool := forallb stage_spec_ok c.
